@@ -601,6 +601,7 @@ def r6_legal_filter(ctx):
 def run(ctx):
     r6_legal_filter(ctx)
     r7_colour_relative_constants(ctx)
+    r8_hand_written_steps(ctx)
     # the castling rights that castle_moves trusts are maintained by make_move's bookkeeping (shared with C02.R5)
     try:
         from . import movefields as MF_
@@ -618,3 +619,62 @@ def run(ctx):
     r4_quiet_filter(ctx)
     r5_mirror(ctx)
     ctx.assumptions += ["C04 (tables), C05 (check test) and C02/C03 (make/unmake) hold; the legality filter is make + is_valid + unmake"]
+
+
+def r8_hand_written_steps(ctx, rid="C01.R8"):
+    """attack sets computed by shifting a whole occupancy (instead of the verified tables) must not wrap around the
+    board edge"""
+    ctx.rule(rid, "a set-wise step of an occupancy by one file (shift by 1, 7 or 9) in the board crate is pre-masked so that no bit wraps around the a/h edge (index = file + 8 * row: << 9 and >> 7 and << 1 move one file up, << 7 and >> 9 and >> 1 one file down); the matcher is exercised by the ±8 pawn pushes on every run", floor=1)
+    prog = ctx.prog
+    MOVE_PREFIX = "inkayaku_board::board::Move::"
+    FILE_A = sum(1 << (8 * r) for r in range(8))
+    FILE_H = FILE_A << 7
+    control = 0
+    sites = []
+    for k, f in sorted(prog.fns.items()):
+        if f["crate"] != "inkayaku_board" or f.get("test") or k.startswith(MOVE_PREFIX) or "precalculated" in k or f["kind"] == "promoted":
+            continue
+        ex = None
+        for b in f["blocks"]:
+            if b["cleanup"]:
+                continue
+            for s in b["stmts"]:
+                rv = s["rv"]
+                if rv["op"] != "bin" or rv["bop"].replace("Unchecked", "").replace("WithOverflow", "") not in ("Shl", "Shr"):
+                    continue
+                amt = rv["a"][1]
+                if amt.get("k") != "const" or not isinstance(amt.get("v"), int):
+                    continue
+                from ..expr import operand_ty
+                if (operand_ty(f, rv["a"][0]) or "") != "u64":
+                    continue
+                if amt["v"] in (8, 16):
+                    control += 1
+                    continue
+                if amt["v"] not in (1, 7, 9):
+                    continue
+                ex = ex or Exprs(f)
+                left = rv["bop"].startswith("Shl")
+                up = (left and amt["v"] in (9, 1)) or (not left and amt["v"] == 7)      # file + 1
+                operand = ex.operand(rv["a"][0])
+                # the constant masks AND-ed into the operand
+                allowed = (1 << 64) - 1
+                def walk(t):
+                    nonlocal allowed
+                    if t[0] == "bin" and t[1] == "BitAnd":
+                        for side in (t[2], t[3]):
+                            if side[0] == "c" and isinstance(side[1], int):
+                                allowed &= side[1]
+                            elif side[0] == "un" and side[1] == "Not" and side[2][0] == "c" and isinstance(side[2][1], int):
+                                allowed &= ~side[2][1] & ((1 << 64) - 1)
+                            else:
+                                walk(side)
+                walk(operand)
+                wraps = allowed & (FILE_H if up else FILE_A)
+                sites.append((k, s["line"], ("<<" if left else ">>") + str(amt["v"]), wraps, f))
+    ctx.ob(rid, "matcher-control", control >= 2, "" if control >= 2 else "the shift matcher no longer sees the ±8 pawn pushes (%d found)" % control, "", sample={"rank_steps_seen": control})
+    for k, line, what, wraps, f in sites:
+        ok = wraps == 0
+        ctx.ob(rid, "%s|%s|line-order-%d" % (k.rsplit("::", 1)[-1], what, [x for x in sites if x[0] == k].index((k, line, what, wraps, f))), ok,
+               "" if ok else "%s steps an occupancy with `%s` without masking out the %s-file first: the bits on that file wrap around the board edge (a pawn on the a-file 'attacks' the h-file). Use the attack tables or mask with the file that cannot make the step" % (f["display"], what, "h" if wraps & FILE_H else "a"),
+               ctx.where(f, line), sample={"function": k.rsplit("::", 1)[-1], "shift": what})
